@@ -3,14 +3,20 @@
    Proved here: aton(toa(n)) = n for every integer (decimal text round trip of
    the strconv.Itoa / Atoi models, sign and range included); toa renders
    exactly what write prints; aton of a non-string is a type error.  The
-   generator built-ins are stated over the trees REGENERATED from
-   builtin/builtin.go on every run (GenBuiltins.v) and evaluated by the
-   definitional semantics on examples; their general specifications
-   ([C17_fromto_statement] etc.) are open and decided by the check against
-   Python-computed expectations on the real code.  Float text round trip
+   generator built-ins are the trees REGENERATED from builtin/builtin.go on
+   every run (GenBuiltins.v), resolved by the STRewrite model and bound at
+   start-up of the session semantics; under the definitional semantics
+   fromto(a,b) hands out a, a+1, .., b-1 (nothing when a >= b), indices(x)
+   hands out 0 .. #x-1 and elems(x) hands out x[0] .. x[#x-1], for every
+   argument, every state in which the names still mean the built-ins and
+   every sufficient fuel — both to a consumer that resumes them directly
+   ([drain]) and to a for loop collecting the values (GenProofs.v,
+   ForProofs.v).  That the compiled code does the same is C01's
+   correspondence, sampled by this check on the real code.  Float text round trip
    aton(toa(f)) = f is decided by testing (the float text model is FloatText.v). *)
 Require Import Calc.Base Calc.Bytecode Calc.Value Calc.FloatText Calc.Ast Calc.Resolve Calc.Compile
-        Calc.VM Calc.Sem Calc.GenBuiltins Calc.Session Calc.CorrSession Calc.SemSession Calc.BuiltinProofs.
+        Calc.VM Calc.Sem Calc.GenBuiltins Calc.Session Calc.CorrSession Calc.SemSession Calc.BuiltinProofs
+        Calc.GenProofs Calc.ForProofs.
 Open Scope Z_scope.
 
 Theorem C17_aton_toa_int : forall z, in_int64 z = true -> atoi (itoa z) = Some z.
@@ -30,16 +36,131 @@ Theorem C17_aton_non_string_is_type_error : forall n v e st st1 x,
 Proof. exact sem_aton_errors. Qed.
 Print Assumptions C17_aton_non_string_is_type_error.
 
-(* open: the general contracts of the generator built-ins *)
-Definition collect_prog (it : node) : node :=
-  NBlock [NAssign (NName "acc") (NList []);
-          NFor [NName "e"] [it] (NAssign (NName "acc") (NBin "+" (NName "acc") (NList [NName "e"])));
-          NName "acc"].
+(* ---- the generator built-ins ---- *)
+Definition fromto_clos := {| sc_params := 2; sc_locals := 2; sc_body := fromto_body; sc_env := None |}.
+Definition indices_clos := {| sc_params := 1; sc_locals := 2; sc_body := indices_body; sc_env := None |}.
+Definition elems_clos := {| sc_params := 1; sc_locals := 2; sc_body := elems_body; sc_env := None |}.
 
-Definition C17_fromto_statement : Prop :=
-  forall a b, in_int64 a = true -> in_int64 b = true -> b - a < 1000 ->
-    snd (sem_tree sem_init (collect_prog (NCall (NName "fromto") [NInt a; NInt b])))
-    = CVal (VArr (map (fun i => VInt (a + Z.of_nat i)) (seq 0 (Z.to_nat (b - a))))).
+(* what the proofs are about is what builtin.go says today: the closures the
+   session semantics binds at start-up from the regenerated trees *)
+Theorem C17_generators_are_the_generated_trees :
+  has_builtin sem_init "fromto" fromto_clos /\ has_builtin sem_init "indices" indices_clos /\
+  has_builtin sem_init "elems" elems_clos.
+Proof. exact sem_init_has_builtins. Qed.
+Print Assumptions C17_generators_are_the_generated_trees.
+
+(* a consumer that resumes fromto(a,b) until it is done receives a, a+1, .., b-1 *)
+Theorem C17_fromto_yields : forall a b e st f,
+  in_int64 a = true -> in_int64 b = true -> has_builtin st "fromto" fromto_clos ->
+  (Z.to_nat (b - a) + 6 <= f)%nat ->
+  fst (drain (eval f (NCall (NName "fromto") [NInt a; NInt b]) e st))
+  = map (fun i => VInt (a + Z.of_nat i)) (seq 0 (Z.to_nat (b - a))).
+Proof. exact fromto_yields. Qed.
+Print Assumptions C17_fromto_yields.
+
+(* nothing when a >= b: the call returns at once, having only made its frame *)
+Theorem C17_fromto_empty : forall a b e st f,
+  in_int64 a = true -> in_int64 b = true -> b <= a -> has_builtin st "fromto" fromto_clos -> (6 <= f)%nat ->
+  exists v, eval f (NCall (NName "fromto") [NInt a; NInt b]) e st
+            = Done (fst (new_frame st [VInt a; VInt b])) (CVal v).
+Proof. exact fromto_empty. Qed.
+Print Assumptions C17_fromto_empty.
+
+(* step by step: each value is handed out in exactly the state the generator
+   was resumed in, and a resumption changes its own frame only *)
+Theorem C17_fromto_steps : forall a b e st f,
+  in_int64 a = true -> in_int64 b = true -> has_builtin st "fromto" fromto_clos ->
+  (Z.to_nat (b - a) + 6 <= f)%nat ->
+  gen (s_next st) (ft_frame a b) (ft_val a) (Z.to_nat (b - a)) 0 (fst (new_frame st [VInt a; VInt b]))
+      (eval f (NCall (NName "fromto") [NInt a; NInt b]) e st).
+Proof. exact fromto_call. Qed.
+Print Assumptions C17_fromto_steps.
+
+Theorem C17_indices_yields : forall t x e st f,
+  eval f t e st = Done st (CVal x) -> is_seq x = true -> Z.of_nat (seq_len x) <= max_int ->
+  has_builtin st "indices" indices_clos -> (seq_len x + 6 <= f)%nat ->
+  fst (drain (eval (S f) (NCall (NName "indices") [t]) e st))
+  = map (fun i => VInt (Z.of_nat i)) (seq 0 (seq_len x)).
+Proof. exact indices_yields. Qed.
+Print Assumptions C17_indices_yields.
+
+(* seq_at x i is x[i]: for an array its i-th element, for a string its i-th byte as a string *)
+Theorem C17_elems_yields : forall t x e st f,
+  eval f t e st = Done st (CVal x) -> is_seq x = true -> Z.of_nat (seq_len x) <= max_int ->
+  has_builtin st "elems" elems_clos -> (seq_len x + 6 <= f)%nat ->
+  fst (drain (eval (S f) (NCall (NName "elems") [t]) e st)) = map (seq_at x) (seq 0 (seq_len x)).
+Proof. exact elems_yields. Qed.
+Print Assumptions C17_elems_yields.
+
+Theorem C17_seq_at_is_indexing : forall x i, is_seq x = true -> (i < seq_len x)%nat ->
+  Index1 x (VInt (Z.of_nat i)) = Ok (seq_at x i).
+Proof. exact index_seq. Qed.
+Print Assumptions C17_seq_at_is_indexing.
+
+(* an argument that is neither array nor string: a runtime error, nothing handed out *)
+Theorem C17_elems_of_non_sequence : forall t x e st f,
+  eval (S (S (S (S (S f))))) t e st = Done st (CVal x) -> is_seq x = false ->
+  has_builtin st "elems" elems_clos ->
+  exists st', eval (S (S (S (S (S (S f)))))) (NCall (NName "elems") [t]) e st
+              = Done st' (CErr (match x with VNil => ErrNil | _ => ErrType end)).
+Proof. exact elems_of_non_sequence. Qed.
+Print Assumptions C17_elems_of_non_sequence.
+
+(* in a for loop: the body runs once per value, in order *)
+Theorem C17_for_over_fromto_collects : forall a b st f,
+  in_int64 a = true -> in_int64 b = true -> has_builtin st "fromto" fromto_clos ->
+  (Z.to_nat (b - a) + 12 <= f)%nat ->
+  exists st', eval f (collect_prog (NCall (NName "fromto") [NInt a; NInt b])) env_top st
+              = Done st' (CVal (VArr (map (fun i => VInt (a + Z.of_nat i)) (seq 0 (Z.to_nat (b - a)))))).
+Proof. exact fromto_collect. Qed.
+Print Assumptions C17_for_over_fromto_collects.
+
+(* ... and through the front door of the session semantics (its fuel is 3000) *)
+Theorem C17_fromto_session : forall a b,
+  in_int64 a = true -> in_int64 b = true -> b - a < 2900 ->
+  snd (sem_tree sem_init (collect_prog (NCall (NName "fromto") [NInt a; NInt b])))
+  = CVal (VArr (map (fun i => VInt (a + Z.of_nat i)) (seq 0 (Z.to_nat (b - a))))).
+Proof. exact fromto_collect_session. Qed.
+Print Assumptions C17_fromto_session.
+
+Theorem C17_for_over_elems_returns_the_array : forall t l st f,
+  eval (S (S (S f))) t env_top (set_global st "acc" (VArr [])) = Done (set_global st "acc" (VArr [])) (CVal (VArr l)) ->
+  Z.of_nat (List.length l) <= max_int -> forallb (fun v => negb (is_nil v)) l = true ->
+  has_builtin st "elems" elems_clos -> (List.length l + 6 <= f)%nat ->
+  exists st', eval (S (S (S (S (S (S f)))))) (collect_prog (NCall (NName "elems") [t])) env_top st
+              = Done st' (CVal (VArr l)).
+Proof. exact elems_collect_array. Qed.
+Print Assumptions C17_for_over_elems_returns_the_array.
+
+Theorem C17_for_over_indices_collects : forall t x st f,
+  eval (S (S (S f))) t env_top (set_global st "acc" (VArr [])) = Done (set_global st "acc" (VArr [])) (CVal x) ->
+  is_seq x = true -> Z.of_nat (seq_len x) <= max_int -> has_builtin st "indices" indices_clos ->
+  (seq_len x + 6 <= f)%nat ->
+  exists st', eval (S (S (S (S (S (S f)))))) (collect_prog (NCall (NName "indices") [t])) env_top st
+              = Done st' (CVal (VArr (map (fun i => VInt (Z.of_nat i)) (seq 0 (seq_len x))))).
+Proof. exact indices_collect. Qed.
+Print Assumptions C17_for_over_indices_collects.
+
+(* successive read() calls return successive lines of the input and lose none *)
+Theorem C17_reads_successive_lines : forall l1 l2 st f,
+  has_builtin st "read" read_clos -> s_in st = l1 ++ l2 ->
+  fst (reads (S (S (S f))) (List.length l1) st) = map (fun l => CVal (VStr l)) l1 /\
+  s_in (snd (reads (S (S (S f))) (List.length l1) st)) = l2.
+Proof. exact reads_successive_lines. Qed.
+Print Assumptions C17_reads_successive_lines.
+
+Theorem C17_read_at_end_of_input : forall st f,
+  has_builtin st "read" read_clos -> s_in st = [] ->
+  eval (S (S (S f))) (NCall (NName "read") []) env_top st = Done (fst (new_frame st [])) (CErr ErrRead).
+Proof. exact read_call_eof. Qed.
+Print Assumptions C17_read_at_end_of_input.
+
+(* the hypotheses are met: a literal argument in the start-up state *)
+Example C17_hypotheses_hold :
+  eval 3 (NList [NInt 4; NStr "x"]) env_top (set_global sem_init "acc" (VArr []))
+  = Done (set_global sem_init "acc" (VArr [])) (CVal (VArr [VInt 4; VStr "x"])) /\
+  has_builtin sem_init "elems" elems_clos /\ has_builtin sem_init "read" read_clos /\ in_int64 (-3) = true.
+Proof. repeat split. Qed.
 
 (* the regenerated built-in trees, evaluated by the semantics *)
 Example C17_generators_on_examples :
